@@ -586,6 +586,8 @@ def oracle_c06_engine(cid, impl, m):
     and direct memberships for every subject set of A: the answer must be the one the
     model computes from A's tuples alone (the correspondence), and equal the reference
     semantics on A when limits are not binding."""
+    if impl.get("res", "").startswith("network-leak"):
+        return ("c06-leak", "listing network A returned rows that were written to network B only: " + impl.get("x_detail", ""))
     return oracle_c01(cid, impl, m)
 
 
